@@ -21,7 +21,7 @@ def k_cases(ctx):
     names = ["A", "B"]
     pairs = [(a, b) for a in names for b in names]
     seedings = [None, (True, False), (False, True), (True, True)]
-    for edges in itertools.product([None, "plain", "map"], repeat=len(pairs)):
+    for edges in itertools.product([None, "plain", "map", "arr"], repeat=len(pairs)):
         for sa, sb in itertools.product(seedings, repeat=2):
             if ctx.quick and r.random() < 0.5:
                 continue
@@ -31,7 +31,7 @@ def k_cases(ctx):
                     deps = []
                     for (a, b), e in zip(pairs, edges):
                         if a == n and e:
-                            deps.append(b if e == "plain" else {"map": b})
+                            deps.append(b if e == "plain" else {e: b})
                     nodes.append({"name": n, "kind": "schema", "deps": deps, "attrs": n == "B"})
                 seeds = [[n, s[0], s[1]] for n, s in zip(names, (sa, sb)) if s]
                 out.append(k_graph_case(nodes, seeds, target))
@@ -53,7 +53,7 @@ def k_cases(ctx):
             for _ in range(nd if pool else 0):
                 t = r.choice(pool)
                 x = r.random()
-                deps.append({"map": t} if x < 0.2 else t)
+                deps.append({"map": t} if x < 0.15 else {"arr": t} if x < 0.3 else t)
             node = {"name": name, "kind": kind, "deps": deps}
             if kind not in ("enum", "alias"):
                 node["attrs"] = r.random() < 0.3
@@ -82,6 +82,21 @@ FEATURES = {
     "plain": featgen.wrap({"A": OBJ({"x": {"type": "string"}, "b": S("B")}), "B": OBJ({"n": {"type": "integer"}})}, body="A", resp="A"),
     "map-edge": featgen.wrap({"A": OBJ({"m": {"type": "object", "additionalProperties": S("B")}}), "B": OBJ({"n": {"type": "integer"}}), "C": OBJ({"b": S("B")})}, body="A", resp="C"),
     "map-only-ref": featgen.wrap({"A": OBJ({"m": {"type": "object", "additionalProperties": S("B")}}), "B": OBJ({"n": {"type": "integer"}})}, body="A"),
+    # B is response-only (C), A request-only: the member `l` is an array whose items are the ARRAY ALIAS E
+    "nested-array-edge": featgen.wrap({"A": OBJ({"l": {"type": "array", "items": S("E")}}), "B": OBJ({"n": {"type": "integer"}}), "C": OBJ({"b": S("B")}),
+                                       "E": {"type": "array", "items": S("B")}}, body="A", resp="C"),
+    "required-header-default": featgen.wrap({"A": OBJ({"x": {"type": "string"}})}, resp="A", method="get",
+                                            params=[{"name": "X-Mode", "in": "header", "required": True, "schema": {"type": "string", "default": "fast"}}]),
+    # Item is a request body of one operation and the NULLABLE-WRAPPED response of another
+    "nullable-response": {"openapi": "3.1.0", "info": {"title": "t", "version": "1"}, "components": {"schemas": {"Item": OBJ({"x": {"type": "string"}})}},
+                          "paths": {"/a": {"get": {"operationId": "getA", "responses": {"200": {"description": "ok", "content": {"application/json": {"schema": {"oneOf": [S("Item"), {"type": "null"}]}}}}}}},
+                                    "/b": {"post": {"operationId": "postB", "requestBody": {"required": True, "content": {"application/json": {"schema": S("Item")}}}, "responses": {"204": {"description": "n"}}}}}},
+    # the request body is an array of the array alias Host; Key is otherwise response-only
+    "nested-array-body": featgen.wrap({"Key": OBJ({"n": {"type": "integer"}}), "Host": {"type": "array", "items": S("Key")}}, body={"type": "array", "items": S("Host")}, resp="Host"),
+    # Item is the NULLABLE-WRAPPED request body of one operation and a response of another
+    "nullable-body": {"openapi": "3.1.0", "info": {"title": "t", "version": "1"}, "components": {"schemas": {"Item": OBJ({"x": {"type": "string"}})}},
+                      "paths": {"/a": {"post": {"operationId": "postA", "requestBody": {"required": True, "content": {"application/json": {"schema": {"anyOf": [S("Item"), {"type": "null"}]}}}}, "responses": {"204": {"description": "n"}}}},
+                                "/b": {"get": {"operationId": "getB", "responses": {"200": {"description": "ok", "content": {"application/json": {"schema": S("Item")}}}}}}}},
     "param-clash": featgen.wrap({"A": OBJ({"x": {"type": "string"}})}, resp="A", method="get",
                                 params=[{"name": "id", "in": "query", "schema": {"type": "string"}}, {"name": "id", "in": "header", "schema": {"type": "integer"}}]),
     "sep-int": featgen.wrap({"A": OBJ({"x": {"type": "string"}})}, resp="A", method="get",
@@ -120,6 +135,39 @@ def lattice_sample(r, n):
     return r.sample(cfgs, n) if n < len(cfgs) else cfgs
 
 
+def eff_explode(kw):
+    """`explode.unwrap_or(style is None or form)` as converter/parameters.rs computes it"""
+    return kw["explode"] if kw.get("explode") is not None else kw.get("style") in (None, "form")
+
+
+def array_e_cases(ctx):
+    """the ARRAY PARAMETER dimension, bounded-exhaustive: one document per point (WF is judged per point)"""
+    out = []
+    for i, pt in enumerate(featgen.array_param_space()):
+        modes = ["client-mod", "server-mod"] if not ctx.quick else [["client-mod", "server-mod"][i % 2]]
+        for m in modes:
+            out.append(gen_case(featgen.array_param_spec([pt]), m, {"vis": "public", "enum_mode": "merge", "builders": i % 3 == 0}))
+    return out
+
+
+def array_a_cases(ctx):
+    """the same points packed into few documents for rustc: one operation per (location, item type, level,
+    separator applied or not), so that a shape that compiles is never in one struct with a shape that does not"""
+    groups = {}
+    for pt in featgen.array_param_space():
+        key, loc, level, kw = pt
+        if ctx.quick and level == "path":
+            continue
+        # required header parameters with a default never compile (KnownRequiredHeaderDefault): their own group
+        split = (not eff_explode(kw)) if loc == "query" else (kw["required"] and kw["default"])
+        groups.setdefault((loc, kw["items"], level, split), []).append(pt)
+    out = []
+    for g, pts in sorted(groups.items(), key=lambda kv: str(kv[0])):
+        for m in ("client-mod", "server-mod"):
+            out.append(gen_case(featgen.array_param_spec(pts), m, {"vis": "public", "enum_mode": "merge"}, code=True))
+    return out
+
+
 def e_cases(ctx):
     r = ctx.rng
     out = []
@@ -132,6 +180,7 @@ def e_cases(ctx):
     for f in FEATURES:
         for mode in featgen.MODES:
             out.append(gen_case(FEATURES[f], mode, {"vis": "public", "enum_mode": "merge"}))
+    out += array_e_cases(ctx)
     # random documents of the feature grammar x random flags
     for _ in range(250 if ctx.quick else 2000):
         mode, cfg = featgen.rand_cfg(r)
@@ -156,6 +205,9 @@ def err_digest(e):
         name = ty
         trait = re.sub(r"<.*", "", tr).split("::")[-1]
     name = re.sub(r"<.*", "", name).split("::")[-1].strip("&' ")
+    es = re.search(r"`from_response` exists for struct `EventStream<([^`]*)>`, but its trait bounds were not satisfied", msg)
+    if es:
+        name, trait = re.sub(r"<.*", "", es.group(1)).split("::")[-1], "from_response"      # the payload type whose bound is missing
     hm = re.search(r"\{(\w+)::<", msg)
     if hm and "Handler<" in msg:
         name = hm.group(1)          # the handler function a `Handler<_, _>` bound is about
@@ -183,6 +235,7 @@ def arena(ctx, n_random, per_round=120):
     for f in FEATURES:
         for mode in (["client-mod", "server-mod"] if ctx.quick else featgen.MODES):
             cases.append(gen_case(FEATURES[f], mode, {"vis": "public", "enum_mode": "merge", "builders": f == "param-clash"}, code=True))
+    cases += array_a_cases(ctx)
     cases.append(gen_case(FEATURES["plain"], "client-mod", {"vis": "file", "enum_mode": "merge"}, code=True))
     cases.append(gen_case(FEATURES["plain"], "types", {"vis": "file", "enum_mode": "merge"}, code=True))
     for _ in range(n_random):
